@@ -30,7 +30,7 @@
 #
 # Known triggers (genuine defects of trx_if.c, see `TRIGGERS`): most runs steer around them
 # (config.avoid), a seeded ~6 % each do not, VERIF_TRXCON_NOAVOID=<name,...> forces that; the
-# violation of a run that fired a trigger carries the trigger in its signature.
+# crash of a run on a datagram that is such a trigger carries the trigger in its signature.
 
 import json
 import os
@@ -478,8 +478,8 @@ class Run:
 						self.probe("reopen")
 						self.shape.append("open")
 					continue
-				if not self.alive:
-					continue       # after a termination only `open` makes sense
+				if not self.alive and k != "timer":
+					continue       # after a termination only `open` makes sense (and time goes on)
 				fn = getattr(self, "op_" + str(k), None)
 				if fn is not None:
 					fn(op)
@@ -953,6 +953,18 @@ class TrxconEngine:
 			i = rng.randrange(2, len(ops))
 			ops[i:i] = [{"op": "close"}, {"op": "open"}]
 		ops = ops[:max_ops]
+		# runs that do not steer around a known trigger should actually reach it: the shortest
+		# trigger sequence is planted at the start (half of them) or somewhere in the session
+		plant = None
+		if "rsp-no-status" in noavoid:
+			plant = [cmd(rng.choice(["POWEROFF", "POWERON", "SETTA", "MEASURE"])),
+				{"op": "rsp_mut", "kind": rng.choice(["no-status", "no-status", "rsp-alone"]), "s": rng.getrandbits(32), "v": rng.choice([0, 1, 2, 3])}]
+		elif "measure-short" in noavoid:
+			plant = [{"op": "cmd", "t": "MEASURE", "arfcn": rng.choice(VALID_ARFCNS)},
+				{"op": "rsp_mut", "kind": "measure-short", "s": rng.getrandbits(32), "v": rng.choice([0, 2, 4, 6])}]
+		if plant:
+			i = 0 if rng.random() < 0.5 else rng.randrange(len(ops) + 1)
+			ops[i:i] = plant
 		return {"engine": "trxcon", "seed": seed,
 			"config": {"lhost": rng.choice(["127.0.0.1", "0.0.0.0", "localhost"]), "rhost": rng.choice(["127.0.0.1", "10.0.0.2"]),
 				"base_port": rng.choice([5700, 6700, 6700, 65000]), "fn_advance": rng.choice([0, 3, 20, HYPER - 1]),
@@ -1028,10 +1040,6 @@ class TrxconEngine:
 			run.run_ops()
 			clean = not run.viols
 		finally:
-			if run.taint:
-				for v in run.viols:
-					if v["clause"] != "C14.trxcon-crash":
-						v["signature"] = "C14.trxcon/" + "+".join(sorted(run.taint))
 			end = self._release(variant, proc, uses, clean)
 		res = Result()
 		if end is not None and clean and end[0] != 0:
